@@ -3,7 +3,7 @@ import TabulaModel.Lemmas.HeaderFooter
 # C11 — Header/footer exclusion removes only repeated marginal text
 
 Theorems about `Model/HeaderFooter.lean` (the model of `layout/header_footer.go` after the
-two C11 fixes). Helper lemmas are in `Lemmas/HeaderFooter.lean`.
+three C11 fixes). Helper lemmas are in `Lemmas/HeaderFooter.lean`.
 
 Vocabulary: `bands cfg frags pageHeight` are the margin bands of a page (72 pt from the page
 edges; content extent and scaled heights for "inverted" pages), `inRegion .header/.footer`
@@ -30,8 +30,8 @@ def exDoc : List Page :=
 /-- **filter_sublist.** The filtered fragments are a sublist of the page's fragments (same order,
 nothing invented, nothing duplicated) — for every detection result, page and fragment list. -/
 theorem filter_sublist (res : Result) (idx : Int) (fs : List Frag) (ph : Rat) :
-    (filterFragments res idx fs ph).Sublist fs :=
-  List.filter_sublist
+    (filterFragments res idx fs ph).Sublist fs := by
+  rw [filterFragments_eq]; exact List.filter_sublist
 
 /-- the same for the extractor-level composition -/
 theorem exclude_sublist (cfg : Config) (all : List Page) (p : Page) :
@@ -40,12 +40,32 @@ theorem exclude_sublist (cfg : Config) (all : List Page) (p : Page) :
 
 /-! ## Body text is untouched -/
 
-/-- **body_untouched.** A fragment outside both margin bands of its page is always kept, whatever
-was detected (also on character-level pages). -/
+/-- **body_untouched.** A fragment of a word-level page outside both margin bands of its page is
+always kept, whatever was detected (character-level pages: `body_untouched_charlevel`). -/
 theorem body_untouched (res : Result) (idx : Int) (fs : List Frag) (ph : Rat) (f : Frag) (hf : f ∈ fs)
+    (hword : isCharacterLevel fs = false)
     (htop : inTop (bands res.cfg fs ph) f = false) (hbot : inBottom (bands res.cfg fs ph) f = false) :
     f ∈ filterFragments res idx fs ph :=
-  mem_filterFragments.mpr ⟨hf, isInHeaderFooter_false_of_outside htop hbot⟩
+  (mem_filterFragments_wordLevel hword).mpr ⟨hf, isInHeaderFooter_false_of_outside htop hbot⟩
+
+/-- **body_untouched_charlevel.** On a character-level page the unit the filter measures is the
+assembled line (position of its first glyph, height of the line; bands measured on the assembled
+lines, as in detection): a glyph is always kept when every line it belongs to lies outside both
+margin bands, whatever was detected. -/
+theorem body_untouched_charlevel (res : Result) (idx : Int) (fs : List Frag) (ph : Rat) (f : Frag) (hf : f ∈ fs)
+    (hcl : isCharacterLevel fs = true)
+    (hout : ∀ g ∈ charLines fs, f ∈ g → ∀ l, assembleLine g = some l →
+      inTop (bands res.cfg (assembleFragmentsIntoLines fs) ph) l = false ∧
+      inBottom (bands res.cfg (assembleFragmentsIntoLines fs) ph) l = false) :
+    f ∈ filterFragments res idx fs ph := by
+  refine mem_filterFragments.mpr ⟨hf, ?_⟩
+  cases h : isRemoved res idx fs ph f with
+  | false => rfl
+  | true =>
+    obtain ⟨g, hg, hfg, l, hl, hit⟩ := (isRemoved_charLevel_eq_true hcl).mp h
+    obtain ⟨ht, hb⟩ := hout g hg hfg l hl
+    rw [isInHeaderFooter_false_of_outside ht hb] at hit
+    cases hit
 
 /-- the body fragment of page 2 of the example is outside both bands -/
 example : let p := exPage 1 [66, 111, 100, 121] 2
@@ -54,14 +74,15 @@ example : let p := exPage 1 [66, 111, 100, 121] 2
   refine ⟨{ text := [66, 111, 100, 121], x := 72, y := 400, w := 120, h := 12, fs := 12 }, ?_, ?_, ?_⟩ <;> decide +kernel
 
 /-- the body band as a whole survives: filtering commutes with restriction to the body band -/
-theorem body_band_preserved (res : Result) (idx : Int) (fs : List Frag) (ph : Rat) :
+theorem body_band_preserved (res : Result) (idx : Int) (fs : List Frag) (ph : Rat)
+    (hword : isCharacterLevel fs = false) :
     (filterFragments res idx fs ph).filter
         (fun f => !inTop (bands res.cfg fs ph) f && !inBottom (bands res.cfg fs ph) f) =
       fs.filter (fun f => !inTop (bands res.cfg fs ph) f && !inBottom (bands res.cfg fs ph) f) := by
-  unfold filterFragments
-  rw [List.filter_filter]
+  rw [filterFragments_eq, List.filter_filter]
   apply List.filter_congr
   intro f _
+  rw [isRemoved_wordLevel hword]
   cases ht : inTop (bands res.cfg fs ph) f <;> cases hb : inBottom (bands res.cfg fs ph) f <;> simp
   exact isInHeaderFooter_false_of_outside ht hb
 
@@ -124,6 +145,25 @@ theorem pattern_of_match (cfg : Config) (pages : List Page) (k : Kind) (r : Regi
     · rw [h, hkey]
     · exact h
 
+/-- what a hit of `isInHeaderFooter` on the result of `detect` means for the judged fragment `l` (a
+fragment of a word-level page, an assembled line of a character-level page) measured against `b` -/
+theorem hit_only_if (cfg : Config) (pages : List Page) (idx : Int) (b : Bands) (l : Frag)
+    (h : isInHeaderFooter (detect cfg pages) idx b l = true) :
+    ∃ k r, r ∈ (detect cfg pages).regions k ∧ DetectedAt cfg pages k r ∧ idx ∈ r.pages ∧
+      inRegion k b l = true ∧
+      (normalize (trimSpace l.text) = r.pattern ∨
+        (r.isPageNumber = true ∧ isPageNumberPattern (normalize (trimSpace l.text)) = true)) := by
+  obtain ⟨k, r, hr, hpage, hin, hm⟩ := isInHeaderFooter_eq_true.mp h
+  refine ⟨k, r, hr, detected_of_mem cfg pages k r hr, hpage, hin, ?_⟩
+  cases hpn : r.isPageNumber with
+  | false => exact Or.inl (pattern_of_match cfg pages k r hr hpn l.text hm)
+  | true =>
+    simp only [regionMatches, hpn, textsMatch, if_true, Bool.true_and, Bool.or_eq_true,
+      Bool.and_eq_true, beq_iff_eq] at hm
+    rcases hm with h | ⟨_, h⟩
+    · exact Or.inr ⟨rfl, h⟩
+    · exact Or.inl h
+
 /-- **removed_only_if** (word-level pages). If exclusion removes a fragment of a word-level page, then
 the fragment lies in the top or bottom band of its page (`inRegion k`), and there is a region `r` of
 that kind, detected on at least `minOccurrences ≥ 2` pages at a consistent position and covering this
@@ -136,22 +176,12 @@ theorem removed_only_if (cfg : Config) (pages : List Page) (p : Page) (f : Frag)
       inRegion k (bands cfg p.frags p.height) f = true ∧
       (normalize (trimSpace f.text) = r.pattern ∨
         (r.isPageNumber = true ∧ isPageNumberPattern (normalize (trimSpace f.text)) = true)) := by
-  have h : isInHeaderFooter (detect cfg pages) p.index (bands cfg p.frags p.height) false f = true := by
-    cases hh : isInHeaderFooter (detect cfg pages) p.index (bands cfg p.frags p.height) false f with
+  have h : isInHeaderFooter (detect cfg pages) p.index (bands cfg p.frags p.height) f = true := by
+    cases hh : isInHeaderFooter (detect cfg pages) p.index (bands cfg p.frags p.height) f with
     | true => rfl
     | false =>
-      exact absurd (mem_filterFragments.mpr ⟨hf, by rw [detect_cfg, hword]; exact hh⟩) hrem
-  obtain ⟨k, r, hr, hpage, hin, hm⟩ := isInHeaderFooter_eq_true.mp h
-  refine ⟨k, r, hr, detected_of_mem cfg pages k r hr, hpage, hin, ?_⟩
-  have hm : regionMatches r f.text = true := by simpa using hm
-  cases hpn : r.isPageNumber with
-  | false => exact Or.inl (pattern_of_match cfg pages k r hr hpn f.text hm)
-  | true =>
-    simp only [regionMatches, hpn, textsMatch, if_true, Bool.true_and, Bool.or_eq_true,
-      Bool.and_eq_true, beq_iff_eq] at hm
-    rcases hm with h | ⟨_, h⟩
-    · exact Or.inr ⟨rfl, h⟩
-    · exact Or.inl h
+      exact absurd ((mem_filterFragments_wordLevel hword).mpr ⟨hf, by rw [detect_cfg]; exact hh⟩) hrem
+  exact hit_only_if cfg pages p.index _ f h
 
 /-- the hypotheses are satisfiable: the running header of page 2 of `exDoc` is removed from a word-level page -/
 example : let p := exPage 1 [66, 111, 100, 121, 32, 116, 119, 111] 2
@@ -159,22 +189,27 @@ example : let p := exPage 1 [66, 111, 100, 121, 32, 116, 119, 111] 2
     isCharacterLevel p.frags = false ∧ f ∈ p.frags ∧ f ∉ excludePage defaultConfig exDoc p := by
   decide +kernel
 
-/-- **removed_only_if_charlevel_partial** (character-level pages, F8). On a character-level page the
-code removes by position alone: a removed fragment lies in a margin band of its page and some
-detected region of that kind covers the page — but nothing is said about its text.
-Missing w.r.t. the full statement: the text clause (see `charlevel_position_only_counterexample`). -/
-theorem removed_only_if_charlevel_partial (cfg : Config) (pages : List Page) (p : Page) (f : Frag)
-    (hf : f ∈ p.frags) (hrem : f ∉ excludePage cfg pages p) :
-    ∃ k r, r ∈ (detect cfg pages).regions k ∧ DetectedAt cfg pages k r ∧ p.index ∈ r.pages ∧
-      inRegion k (bands cfg p.frags p.height) f = true := by
-  have h : isInHeaderFooter (detect cfg pages) p.index (bands cfg p.frags p.height)
-      (isCharacterLevel p.frags) f = true := by
-    cases hh : isInHeaderFooter (detect cfg pages) p.index (bands cfg p.frags p.height)
-        (isCharacterLevel p.frags) f with
+/-- **removed_only_if_charlevel** (character-level pages; the full statement since the repair of F8).
+If exclusion removes a glyph fragment of a character-level page, then the glyph belongs to a line
+group `g` of the page (`charLines`, the groups detection assembles) whose assembled line `l` lies in
+the top or bottom band (measured, as in detection, on the assembled lines of the page), and there is
+a region of that kind, detected on at least `minOccurrences ≥ 2` pages at a consistent position and
+covering this page, such that the LINE's digit-normalised text is the region's pattern, or the region
+is a page-number region and the line is a page-number pattern. -/
+theorem removed_only_if_charlevel (cfg : Config) (pages : List Page) (p : Page) (f : Frag)
+    (hcl : isCharacterLevel p.frags = true) (hf : f ∈ p.frags) (hrem : f ∉ excludePage cfg pages p) :
+    ∃ g ∈ charLines p.frags, f ∈ g ∧ ∃ l, assembleLine g = some l ∧
+      ∃ k r, r ∈ (detect cfg pages).regions k ∧ DetectedAt cfg pages k r ∧ p.index ∈ r.pages ∧
+        inRegion k (bands cfg (assembleFragmentsIntoLines p.frags) p.height) l = true ∧
+        (normalize (trimSpace l.text) = r.pattern ∨
+          (r.isPageNumber = true ∧ isPageNumberPattern (normalize (trimSpace l.text)) = true)) := by
+  have h : isRemoved (detect cfg pages) p.index p.frags p.height f = true := by
+    cases hh : isRemoved (detect cfg pages) p.index p.frags p.height f with
     | true => rfl
-    | false => exact absurd (mem_filterFragments.mpr ⟨hf, by rw [detect_cfg]; exact hh⟩) hrem
-  obtain ⟨k, r, hr, hpage, hin, _⟩ := isInHeaderFooter_eq_true.mp h
-  exact ⟨k, r, hr, detected_of_mem cfg pages k r hr, hpage, hin⟩
+    | false => exact absurd (mem_filterFragments.mpr ⟨hf, hh⟩) hrem
+  obtain ⟨g, hg, hfg, l, hl, hit⟩ := (isRemoved_charLevel_eq_true hcl).mp h
+  rw [detect_cfg] at hit
+  exact ⟨g, hg, hfg, l, hl, hit_only_if cfg pages p.index _ l hit⟩
 
 /-- a character-level page (one fragment per character): "Abc" at y = 760, optionally the unique
 line "Xy" at y = 740 (20 pt lower, still inside the 72 pt top band), body characters at y = 400 -/
@@ -186,39 +221,73 @@ def clPage (i : Int) (extra : Bool) : Page :=
 
 def clDoc : List Page := [clPage 0 false, clPage 1 true, clPage 2 false]
 
-/-- **charlevel_position_only_counterexample** (F8, recorded as finding `C11/charlevel-position-only`).
-On the character-level document `clDoc` the character `X` of the unique marginal line "Xy" of page 2
-is removed although it is no page-number pattern and no detected region has its text as pattern:
-the text clause of `removed_only_if` fails on character-level pages. -/
-theorem charlevel_position_only_counterexample :
+/-- the hypotheses of `removed_only_if_charlevel` are satisfiable: the glyph `A` of the running line
+"Abc" goes from the character-level page 2 of `clDoc` -/
+example : let p := clPage 1 true
+    let f : Frag := { text := [65], x := 72, y := 760, w := 6, h := 12, fs := 12 }
+    isCharacterLevel p.frags = true ∧ f ∈ p.frags ∧ f ∉ excludePage defaultConfig clDoc p := by
+  decide +kernel
+
+/-- what exclusion returns on `clDoc` since the repair: the running line "Abc" goes from every page,
+the unique line "Xy" of page 2 and the body glyphs stay, in their order -/
+theorem charlevel_unique_line_kept :
+    clDoc.map (fun p => (excludePage defaultConfig clDoc p).map (·.text)) =
+      [[[66], [111]], [[88], [121], [66], [111]], [[66], [111]]] := by
+  decide +kernel
+
+/-- exclusion as it was before the repair of F8 (`filterFragmentsOld`: position alone on
+character-level pages) -/
+def excludePageOld (cfg : Config) (all : List Page) (p : Page) : List Frag :=
+  filterFragmentsOld (detect cfg all) p.index p.frags p.height
+
+/-- **charlevel_position_only_pinned_counterexample** (F8, was finding `C11/charlevel-position-only`;
+about the filter BEFORE the repair, `filterFragmentsOld`). On the character-level document `clDoc`
+the character `X` of the unique marginal line "Xy" of page 2 was removed although it is no
+page-number pattern and no detected region has its text — or the text "Xy" of its line — as pattern:
+the text clause failed on character-level pages. The repaired filter keeps it. -/
+theorem charlevel_position_only_pinned_counterexample :
     let p := clPage 1 true
     let f : Frag := { text := [88], x := 72, y := 740, w := 6, h := 12, fs := 12 }
-    isCharacterLevel p.frags = true ∧ f ∈ p.frags ∧ f ∉ excludePage defaultConfig clDoc p ∧
+    isCharacterLevel p.frags = true ∧ f ∈ p.frags ∧ f ∉ excludePageOld defaultConfig clDoc p ∧
       isPageNumberPattern (normalize (trimSpace f.text)) = false ∧
       ((detect defaultConfig clDoc).headers ++ (detect defaultConfig clDoc).footers).all
-        (fun r => r.pattern != normalize (trimSpace f.text)) = true := by
+        (fun r => r.pattern != normalize (trimSpace f.text) && r.pattern != [88, 121]) = true ∧
+      f ∈ excludePage defaultConfig clDoc p := by
   decide +kernel
 
-/-- the hypotheses of `removed_only_if_charlevel_partial` are satisfiable (same witness) -/
-example : let p := clPage 1 true
-    let f : Frag := { text := [88], x := 72, y := 740, w := 6, h := 12, fs := 12 }
-    f ∈ p.frags ∧ f ∉ excludePage defaultConfig clDoc p := by
-  decide +kernel
+/-- on word-level pages the old and the repaired filter are the same function -/
+theorem filterFragmentsOld_wordLevel (res : Result) (idx : Int) (fs : List Frag) (ph : Rat)
+    (hword : isCharacterLevel fs = false) : filterFragmentsOld res idx fs ph = filterFragments res idx fs ph := by
+  rw [filterFragments_eq]
+  unfold filterFragmentsOld
+  apply List.filter_congr
+  intro f _
+  rw [isRemoved_wordLevel hword, hword]
+  have e : ∀ inBand, regionHitsOld idx inBand false f = regionHits idx inBand f := by
+    intro inBand; funext r; simp [regionHitsOld, regionHits]
+  simp only [isInHeaderFooterOld, isInHeaderFooter, e]
 
-/-- **charlevel_removed_only_where_a_line_repeats** (the part of the text clause that does hold on
-character-level pages). Whatever kind of page: if exclusion removes a fragment, then in the band it
-lies in, THIS page carries a marginal line (an assembled line on a character-level page) whose
-digit-normalised text also occurs on another page — a group of candidates on at least two distinct
-pages, one of them this page. Where no line of a band repeats on another page, nothing is removed
-from that band. -/
+example : isCharacterLevel (exPage 0 [66] 1).frags = false := by decide +kernel
+
+/-- **charlevel_removed_only_where_a_line_repeats.** Whatever kind of page: if exclusion removes a
+fragment, then THIS page carries, in one of its margin bands, a marginal line (an assembled line on a
+character-level page) whose digit-normalised text also occurs on another page — a group of
+candidates on at least two distinct pages, one of them this page. Where no line of a band repeats
+on another page, nothing is removed from that band. -/
 theorem charlevel_removed_only_where_a_line_repeats (cfg : Config) (pages : List Page) (p : Page) (f : Frag)
     (hf : f ∈ p.frags) (hrem : f ∉ excludePage cfg pages p) :
-    ∃ k key, inRegion k (bands cfg p.frags p.height) f = true ∧
+    ∃ k key,
       2 ≤ (distinctPages (groupOf (extractCandidates cfg k (preprocessPages pages)) key)).length ∧
       ∃ c ∈ groupOf (extractCandidates cfg k (preprocessPages pages)) key, c.page = p.index := by
-  obtain ⟨k, r, _, hdet, hpage, hin⟩ := removed_only_if_charlevel_partial cfg pages p f hf hrem
-  obtain ⟨h1, h2, _, h4, _⟩ := hdet
-  exact ⟨k, r.pattern, hin, by omega, (h4 p.index).mp hpage⟩
+  cases hcl : isCharacterLevel p.frags with
+  | false =>
+    obtain ⟨k, r, _, hdet, hpage, _⟩ := removed_only_if cfg pages p f hcl hf hrem
+    obtain ⟨h1, h2, _, h4, _⟩ := hdet
+    exact ⟨k, r.pattern, by omega, (h4 p.index).mp hpage⟩
+  | true =>
+    obtain ⟨_, _, _, _, _, k, r, _, hdet, hpage, _⟩ := removed_only_if_charlevel cfg pages p f hcl hf hrem
+    obtain ⟨h1, h2, _, h4, _⟩ := hdet
+    exact ⟨k, r.pattern, by omega, (h4 p.index).mp hpage⟩
 
 /-! ## Documents without repetition are returned unchanged -/
 
@@ -387,11 +456,11 @@ theorem repeated_removed_everywhere (cfg : Config) (pages : List Page) (k : Kind
   obtain ⟨_, _, _, _, hpat, hpages, _, htxt, _⟩ := regionOf_eq_some hreg
   -- every fragment with that text in that band matches the region
   intro p hp f hf hin hk hkept
-  have hfalse := (mem_filterFragments.mp hkept).2
-  rw [detect_cfg, hword p hp] at hfalse
-  have htrue : isInHeaderFooter (detect cfg pages) p.index (bands cfg p.frags p.height) false f = true := by
+  have hfalse := ((mem_filterFragments_wordLevel (hword p hp)).mp hkept).2
+  rw [detect_cfg] at hfalse
+  have htrue : isInHeaderFooter (detect cfg pages) p.index (bands cfg p.frags p.height) f = true := by
     apply isInHeaderFooter_eq_true.mpr
-    refine ⟨k, r, hrmem, ?_, hin, Or.inr ?_⟩
+    refine ⟨k, r, hrmem, ?_, hin, ?_⟩
     · rw [hpages, mem_sortInts]
       obtain ⟨c, hc, e⟩ := hgroup_page p hp
       exact mem_distinctPages.mpr ⟨c, hc, e⟩
@@ -492,11 +561,11 @@ theorem repeated_on_enough_pages_removed (cfg : Config) (pages S : List Page) (k
     cases k <;> simpa [Result.regions] using this
   obtain ⟨_, _, _, _, hpat, hpages, _, htxt, _⟩ := regionOf_eq_some hreg
   intro p hp f hf hin hk hkept
-  have hfalse := (mem_filterFragments.mp hkept).2
-  rw [detect_cfg, hword p (hS p hp)] at hfalse
-  have htrue : isInHeaderFooter (detect cfg pages) p.index (bands cfg p.frags p.height) false f = true := by
+  have hfalse := ((mem_filterFragments_wordLevel (hword p (hS p hp))).mp hkept).2
+  rw [detect_cfg] at hfalse
+  have htrue : isInHeaderFooter (detect cfg pages) p.index (bands cfg p.frags p.height) f = true := by
     apply isInHeaderFooter_eq_true.mpr
-    refine ⟨k, r, hrmem, ?_, hin, Or.inr ?_⟩
+    refine ⟨k, r, hrmem, ?_, hin, ?_⟩
     · rw [hpages, mem_sortInts]
       obtain ⟨c, hc, e⟩ := hgroup_page p hp
       exact mem_distinctPages.mpr ⟨c, hc, e⟩
